@@ -2,6 +2,7 @@
 from .scopegen import gen_scope_ops
 from .binstream_gen import gen_bs
 from .C10csv import gen_c10, THEOREMS_C10CSV, extra_checks_c10, nontrivial_c10
+from .C10mp import gen_c10mp, THEOREMS_C10MP, extra_checks_c10mp, nontrivial_c10mp
 
 THEOREMS = [
     "BSVerif.Props.C10.init_refines",
@@ -14,13 +15,13 @@ THEOREMS = [
     "BSVerif.Props.C10.setPosition_refines",
     "BSVerif.Props.C10.history_refines",
     "BSVerif.BinStream.readNextChunk_spec",
-] + THEOREMS_C10CSV
+] + THEOREMS_C10CSV + THEOREMS_C10MP
 RULE = ("CBinaryStreamReader operation histories (peek/next/readByte/solid/chunks/setPosition/getPosition/isEnd) on byte strings of "
         "length 0..1000 aimed at the 256-byte cache boundary, judged against the abstract cursor; MsgPack scope histories run from "
         "memory AND from a stream on the same documents (paired ops must give identical answers); non-trivial = history touching "
-        "more than one chunk or a backward SetPosition; every MsgPack writer entry point (C06's generator) through the string writer AND the stream writer, bytes compared; distinct = distinct op lines")
+        "more than one chunk or a backward SetPosition; MsgPack token-level readers: every entry point of CMsgPackStringReader AND CMsgPackStreamReader, single calls on every token format at every offset around the 256/512-byte cache boundaries and HISTORIES of calls on one reader object (values read/skipped/mismatched, SetPosition back and beyond the end, long strings), each answer compared with its own model (string model / stream model over the CBinaryStreamReader model) and pairwise; every MsgPack writer entry point (C06's generator) through the string writer AND the stream writer, bytes compared; distinct = distinct op lines")
 EXHAUSTIVE = {"quick": False, "thorough": False}
-ASSUMPTIONS = ["CSV stream input is UTF-8 without BOM (encoding detection is C13)", "seekable std::istringstream; short-read and non-seekable streambufs are not modelled (flags only)",
+ASSUMPTIONS = ["MsgPack stream reader: the theorems need chunk size >= 8 (the largest solid block); an exception ends a history", "CSV stream input is UTF-8 without BOM (encoding detection is C13)", "seekable std::istringstream; short-read and non-seekable streambufs are not modelled (flags only)",
                "chunk size fixed at 256 in the executed code; the model and theorems are generic in N"]
 
 
@@ -29,6 +30,8 @@ def nontrivial(op, impl):
         return nontrivial_c10(op, impl)
     if op.startswith("mp.write"):
         return len(impl) > 12
+    if op.startswith(("mp.read", "mp.skip", "mp.type", "mp.seq", "mp.wseq")):
+        return nontrivial_c10mp(op, impl)
     return "set:" in op or len(op) > 600
 
 
@@ -41,6 +44,8 @@ def gen(tier, rng, boost=1):
         ops.append(" ".join([t[0], "mem"] + t[2:]))
         ops.append(" ".join([t[0], "stream"] + t[2:]))
     ops += gen_c10(tier, rng, boost)
+    # token-level MsgPack readers: string reader vs stream reader, single calls at the cache boundaries and histories
+    ops += gen_c10mp(tier, rng, boost)
     # "saving to a stream yields exactly the bytes of saving to memory": every writer entry point of both MsgPack writers
     from .C06 import gen as gen_c06
     ops += gen_c06(tier, rng, boost)
@@ -50,7 +55,11 @@ def gen(tier, rng, boost=1):
 def adjust_verdict(op, impl, verdict):
     """mp.write ops are borrowed from C06 and judged here only for C10's own question: do CMsgPackStringWriter and
     CMsgPackStreamWriter produce the same bytes / the same error? (the bytes themselves are C06's business)"""
-    if not op.startswith("mp.write"):
+    if op.startswith(("mp.read", "mp.skip", "mp.type")):
+        # conformance of single reader calls to the MessagePack Spec is C07's question (its listed findings are C07's);
+        # here: correspondence with the two models + pairwise equality of the mem/stream answers (extra_checks)
+        return "ok" if verdict.startswith("known:") else verdict
+    if not op.startswith(("mp.write", "mp.wseq")):
         return verdict
     if " diff " in impl or impl.startswith("mixed"):
         return "bad:stream_writer_bytes_differ_from_memory_writer"
@@ -74,4 +83,5 @@ def extra_checks(ops, impl, res, known_classes, known_hits):
         else:
             seen[key] = (t[1], ia)
     bad += list(extra_checks_c10(ops, impl, res, known_classes, known_hits) or [])
+    bad += list(extra_checks_c10mp(ops, impl, res, known_classes, known_hits) or [])
     return bad
